@@ -51,12 +51,30 @@ def menu(N, tier):
         ops.append((cls, '%s%s.forward' % (cls, list(qs)), (lambda ctor, qs: lambda st: ctor(*qs).forward(st))(ctor, qs)))
         ops.append((cls, '%s%s.backward' % (cls, list(qs)), (lambda ctor, qs: lambda st: ctor(*qs).backward(st))(ctor, qs)))
     # transform_by with full maps (spread over the enumerated group)
-    maps = dom.valid_maps(N)
-    step = 1 if N == 1 else (1151 if tier == 'quick' else 97)
-    for k in range(0, len(maps), step):
-        t, s = maps[k]
-        M = lib.CM(t, s)
-        ops.append(('transform', 'transform_by(map#%d)' % k, (lambda M: lambda st: st.transform_by(M))(M)))
+    if N <= 2:
+        maps = dom.valid_maps(N)
+        step = 1 if N == 1 else (1151 if tier == 'quick' else 97)
+        for k in range(0, len(maps), step):
+            t, s = maps[k]
+            M = lib.CM(t, s)
+            ops.append(('transform', 'transform_by(map#%d)' % k, (lambda M: lambda st: st.transform_by(M))(M)))
+    else:
+        # N=3: two-qubit maps through the three masks (non-contiguous included)
+        m2 = dom.valid_maps(2)
+        for qs in itertools.combinations(range(N), 2):
+            m = np.zeros(N, dtype=bool)
+            m[list(qs)] = True
+            for k in range(7 + qs[0], len(m2), 1153):
+                M = lib.CM(*m2[k])
+                ops.append(('transform_mask2', 'transform_by(map2#%d,mask=%s)' % (k, m.tolist()),
+                            (lambda M, m: lambda st: st.transform_by(M, mask=m.copy()))(M, m)))
+        for qs in itertools.combinations(range(N), 2):
+            m = np.zeros(N, dtype=bool)
+            m[list(qs)] = True
+            for g, p in dom.hermitian_paulis(2)[3::5]:
+                G2 = lib.P(g, p)
+                ops.append(('rotate_mask2', 'rotate_by(%s,mask=%s)' % (ref.g_to_str(g, p), m.tolist()),
+                            (lambda G2, m: lambda st: st.rotate_by(G2, mask=m.copy()))(G2, m)))
     if N >= 2:
         for q in range(N):
             m = np.zeros(N, dtype=bool)
@@ -78,7 +96,9 @@ def menu(N, tier):
     if N >= 2:
         G = ref.all_g(N)
         pairs = dom.commuting_lists(N, 2)
-        if tier == 'quick':
+        if N >= 3:
+            pairs = pairs[::61]
+        elif tier == 'quick':
             pairs = pairs[::9]
         for (a, b) in pairs:
             for (pa, pb) in ((0, 0), (2, 0)):
@@ -100,7 +120,7 @@ def menu(N, tier):
                 st.measure(oth)
             ops.append(('measure_state', 'measure(%s_state) coins=%s' % (nm, coins), f))
     # MeasureLayer through a Circuit
-    qlists = [[q] for q in range(N)] + ([list(range(N)), list(range(N))[::-1]] if N >= 2 else [])
+    qlists = [[q] for q in range(N)] + ([list(range(N)), list(range(N))[::-1]] if N >= 2 else []) + ([[0, 2], [2, 0]] if N >= 3 else [])
     for ql in qlists:
         for coins in itertools.product((0, 1), repeat=len(ql)):
             def f(st, ql=ql, coins=coins):
@@ -182,6 +202,43 @@ def fn_sweep(items, tier='quick'):
 
 def fn_sweep_thorough(items):
     return fn_sweep(items, tier='thorough')
+
+
+def fn_sweep_n3(items):
+    """item = [budget, i]: i-th tableau of the N=3 BFS set (c06._n3_states: six start states of every
+    rank, deduplicated by concrete tableau) x the full N=3 menu."""
+    from . import c06
+    n = nt = 0
+    viol = []
+    keys = set()
+    extra = {}
+    N = 3
+    for budget, i in items:
+        if budget not in c06._N3:
+            c06._N3[budget] = c06._n3_states(budget, 0)
+        gs0, ps0, r0 = c06._N3[budget][i]
+        k0 = stab.key_arrays(gs0, ps0, r0)
+        kind = 'pure' if r0 == 0 else 'mixed-r%d' % r0
+        for cls, label, f in get_menu(N, 'quick'):
+            st = lib.ST(gs0, ps0, r0)
+            try:
+                res = f(st)
+            except Exception as e:
+                viol.append(V('C05/N3/%s/raises-%s/%s' % (cls, type(e).__name__, kind), [budget, i], '%s on %s raised %s: %s' % (label, stab.describe(gs0, ps0, r0), type(e).__name__, e)))
+                n += 1
+                continue
+            if res == 'skip':
+                continue
+            n += 1
+            extra[cls] = extra.get(cls, 0) + 1
+            bad = stab.state_check(st, N)
+            if not bad:
+                k1 = stab.key_arrays(st.gs, st.ps, st.r)
+                keys.add(hash(k1))
+                nt += int(k1 != k0)
+            else:
+                viol.append(V('C05/N3/%s/invalid/%s' % (cls, kind), [budget, i], '%s on %s gives invalid state (%s)' % (label, stab.describe(gs0, ps0, r0), bad)))
+    return {'n': n, 'nt': nt, 'viol': viol, 'keys': keys, 'extra': extra}
 
 
 # ---------------------------------------------------------------- constructors
@@ -337,6 +394,10 @@ def legs(tier):
                    bound='all 48 tableaux x %d menu operations' % len(get_menu(1, tier))))
     out.append(Leg('sweep_N2', f, [[2, i] for i in range(len(stab.tableaux(2)))], chunk=40, src_states=34560,
                    bound='all 34560 tableaux x %d menu operations (all coin branches)' % len(get_menu(2, tier)), timeout=3000))
+    nb3 = 402 if tier == 'quick' else 4002
+    get_menu(3, 'quick')
+    out.append(Leg('sweep_N3', fn_sweep_n3, [[nb3, i] for i in range(nb3)], chunk=6, exhaustive=False, supplementary=True,
+                   bound='%d N=3 tableaux (BFS from six start states of every rank 0..3, by concrete tableau) x %d menu operations (all rotations, masked 1- and 2-qubit rotations and maps incl. the non-contiguous mask, named gates both directions, all single measurements, commuting pairs, state arguments, measurement layers incl. [0,2],[2,0], post-selection; all coin branches)' % (nb3, len(get_menu(3, 'quick')))))
     citems = [[N, 'det', 0] for N in (1, 2, 3, 4)] + [[N, 'bit', 0] for N in (1, 2, 3)]
     citems += [[N, k, r] for N in (1, 2) for k in ('pauli', 'clifford') for r in range(N + 1)]
     out.append(Leg('constructors', fn_ctor, citems, chunk=1,
